@@ -260,10 +260,14 @@ func c03Handover(e *Env) {
 		}
 		// the continuation: closure registered with LoadOrStore on the token table
 		var cont *ssa.Function
+		var boundRecv ssa.Value
 		for _, c := range core.Calls(f, func(nm string, ci ssa.CallInstruction) bool {
 			return nm == "pkg/sync.Map.LoadOrStore" && strings.HasSuffix(tableOf(ci), ".tokenHandlerContainer")
 		}) {
 			cont = core.FuncArgClosure(core.Arg(c, 2))
+			if mk, isMk := core.Resolve(core.Arg(c, 2)).(*ssa.MakeClosure); isMk && len(mk.Bindings) == 1 {
+				boundRecv = mk.Bindings[0]
+			}
 			if cont == nil {
 				// registered through a shared helper: the handler this function passes in
 				for _, v := range core.ResolveIn(f, core.Arg(c, 2)) {
@@ -273,11 +277,99 @@ func c03Handover(e *Env) {
 				}
 			}
 		}
-		if cont == nil || len(cont.Params) != 2 {
+		// a method value of a small waiter struct (`waiter.deliver`): the continuation is that method, its receiver the bound value
+		var recvParam *ssa.Parameter
+		var recvBound ssa.Value
+		if cont != nil && strings.HasPrefix(cont.Synthetic, "bound method wrapper") && len(cont.FreeVars) == 1 {
+			recvBound = boundRecv
+			var target *ssa.Function
+			core.InstrsOwn(cont, func(in ssa.Instruction) {
+				if c, ok := in.(ssa.CallInstruction); ok {
+					if g := c.Common().StaticCallee(); g != nil && len(g.Blocks) > 0 {
+						target = g
+					}
+				}
+			})
+			if target != nil && len(target.Params) == 3 {
+				recvParam = target.Params[0]
+				cont = target
+			}
+		}
+		if cont == nil || (len(cont.Params) != 2 && recvParam == nil) {
 			e.R.Fail(rule, q+":continuation", e.fpos(f), "the registered continuation is not a function literal")
 			continue
 		}
-		msg := cont.Params[1]
+		msg := cont.Params[len(cont.Params)-1]
+		// chanOf: the channel a value is – directly, or as the field of a (bound) waiter struct built in this function
+		var chanOf func(v ssa.Value, d int) *ssa.MakeChan
+		var structField func(base ssa.Value, field, d int) *ssa.MakeChan
+		// structField: what field #field of the struct value / variable `base` holds (a struct built by a literal, copied between
+		// locals, bound as the receiver of a method value)
+		structField = func(base ssa.Value, field, d int) *ssa.MakeChan {
+			if d > 8 || base == nil {
+				return nil
+			}
+			switch x := base.(type) {
+			case *ssa.Parameter:
+				if recvParam != nil && x == recvParam {
+					return structField(recvBound, field, d+1)
+				}
+				return nil
+			case *ssa.UnOp:
+				if x.Op == token.MUL {
+					return structField(x.X, field, d+1) // a load of a struct variable: look at the variable
+				}
+				return nil
+			case *ssa.Alloc:
+				var out *ssa.MakeChan
+				for _, ref := range core.Referrers(x) {
+					switch u := ref.(type) {
+					case *ssa.FieldAddr:
+						if u.Field != field {
+							continue
+						}
+						for _, uu := range core.Referrers(u) {
+							if st, isSt := uu.(*ssa.Store); isSt && st.Addr == ssa.Value(u) {
+								if mc := chanOf(st.Val, d+1); mc != nil {
+									out = mc
+								}
+							}
+						}
+					case *ssa.Store:
+						if u.Addr == ssa.Value(x) { // the whole struct is assigned
+							if mc := structField(u.Val, field, d+1); mc != nil {
+								out = mc
+							}
+						}
+					}
+				}
+				return out
+			}
+			return nil
+		}
+		chanOf = func(v ssa.Value, d int) *ssa.MakeChan {
+			if d > 6 || v == nil {
+				return nil
+			}
+			r := core.Resolve(v)
+			if mc, ok := r.(*ssa.MakeChan); ok {
+				return mc
+			}
+			var base ssa.Value
+			field := -1
+			switch x := r.(type) {
+			case *ssa.Field:
+				base, field = x.X, x.Field
+			case *ssa.UnOp:
+				if fa, ok := x.X.(*ssa.FieldAddr); ok && x.Op == token.MUL {
+					base, field = fa.X, fa.Field
+				}
+			}
+			if field < 0 {
+				return nil
+			}
+			return structField(base, field, d)
+		}
 		var sel *ssa.Select
 		core.Instrs(cont, func(in ssa.Instruction) {
 			if s, ok := in.(*ssa.Select); ok {
@@ -289,7 +381,7 @@ func c03Handover(e *Env) {
 		if sel != nil {
 			for _, st := range sel.States {
 				if st.Dir == types.SendOnly && core.Resolve(st.Send) == ssa.Value(msg) {
-					ch, _ = core.Resolve(st.Chan).(*ssa.MakeChan)
+					ch = chanOf(st.Chan, 0)
 				}
 			}
 		}
@@ -304,7 +396,7 @@ func c03Handover(e *Env) {
 		sendsMsg := false
 		if sel != nil {
 			for _, st := range sel.States {
-				if st.Dir == types.SendOnly && core.Resolve(st.Send) == ssa.Value(msg) && core.Resolve(st.Chan) == ssa.Value(ch) {
+				if st.Dir == types.SendOnly && core.Resolve(st.Send) == ssa.Value(msg) && chanOf(st.Chan, 0) == ch {
 					sendsMsg = true
 				}
 			}
@@ -320,7 +412,7 @@ func c03Handover(e *Env) {
 				return
 			}
 			for _, st := range s.States {
-				if st.Dir == types.RecvOnly && core.Resolve(st.Chan) == ssa.Value(ch) {
+				if st.Dir == types.RecvOnly && chanOf(st.Chan, 0) == ch {
 					okRecv = true
 				}
 			}
@@ -706,8 +798,23 @@ func c13Acquisitions(e *Env) {
 			}
 			q := &core.PathQuery{Fn: f, From: call,
 				Stop:      func(in ssa.Instruction) bool { rc, ok := in.(*ssa.Call); return ok && sameKeyRel(rc) },
-				DeferStop: func(d *ssa.Defer) bool { return sameKeyRel(d) },
-				Target:    core.IsReturn}
+				DeferStop: func(d *ssa.Defer) bool {
+					if sameKeyRel(d) {
+						return true
+					}
+					// a deferred release closure (written in place, or returned by the helper that acquired): its body releases the same key
+					if body := core.StaticFn(d); body != nil && body.Parent() != nil {
+						for _, g := range core.WithAnon(body) {
+							for _, rc := range core.CallsNamed(g, a.release) {
+								if sameKeyRel(rc) {
+									return true
+								}
+							}
+						}
+					}
+					return false
+				},
+				Target: core.IsReturn}
 			if a.errResult {
 				q.EdgeOK = func(i *ssa.If, branch bool) bool {
 					ev, nilBranch, ok := core.ErrNilEdge(i)
